@@ -20,6 +20,7 @@ import PsdVerif.Lemmas.Payload3Samples
 import PsdVerif.Generated.Terms
 import PsdVerif.Model.PayloadResaveTables
 import PsdVerif.Generated.C02Formats
+import PsdVerif.Generated.C02Guards
 
 namespace PsdVerif.C02
 open PsdVerif PsdVerif.Codec PsdVerif.Payload PsdVerif.Payload.PCodec PsdVerif.Payload3
@@ -68,6 +69,19 @@ theorem read_write_formats_compatible :
       decide (r ∈ ResaveTables.asymmetricFormats)) = true ∧
     ResaveTables.asymmetricFormats.all (fun r => decide (r ∈ Generated.C02Formats.pairs)) = true ∧
     100 ≤ Generated.C02Formats.pairs.length := by decide +kernel
+
+/-- **Optional parts are decided by the same test on both sides.** For every class of `psd_tools.psd` (regenerated from the AST
+on every run): each test on a stored field under which the READER parses an optional part (`flags.parameters_applied`,
+`version >= 2`, `id == ColorSpaceID.LAB` ...) is, word for word, a test under which the WRITER emits one - or the class is one
+of the rows of `ResaveTables.asymmetricGuards`, with exactly the tests listed there. A reader that starts to parse a trailer
+under a flag the writer does not look at (the part is read, dropped by the save, and the file re-reads differently) adds a
+reader test without a writer counterpart and breaks this. Tests on what is left in the stream (`is_readable`, `length >= 36`)
+are not field tests: what they let through is covered by the byte-level search. -/
+theorem optional_part_tests_shared :
+    Generated.C02Guards.rows.all (fun r => r.2.1.all (fun t => r.2.2.contains t) ||
+      decide (r ∈ ResaveTables.asymmetricGuards)) = true ∧
+    ResaveTables.asymmetricGuards.all (fun r => decide (r ∈ Generated.C02Guards.rows)) = true ∧
+    20 ≤ Generated.C02Guards.rows.length := by decide +kernel
 
 /-- the framing primitives (`…_length_block` with `fmt=` and `padding=`, `…_pascal_string` and `…_unicode_string` with
 `padding=`): called with the same arguments, in the same order, by the reader and the writer of every class - or the class
